@@ -8,14 +8,23 @@ package replicaset
 @*/
 /*@ immutable types/replicaset.subscription.parent types/replicaset.subscription.outch types/replicaset.subscription.cache
   types/replicaset.cache.parent types/replicaset.controller.parent types/replicaset.controller.cache types/replicaset.filterController.filterParent
-  types/replicaset.filterSubscription.filterParent
+  types/replicaset.filterSubscription.filterParent types/replicaset.filterController.controller
 @*/
 /*@ nonblocking-send types/replicaset.subscription.outch
 @*/
 
 /*@ theory replicasettyped
 ;; theory lists wiring
-;; uses types/replicaset.event
+;; uses types/replicaset.event types/replicaset.controller
+(declare-fun |F!types/replicaset.filterController!controller| (V) |S!types/replicaset.controller|)
+(assert (forall ((c V)) (! (=> (= (dyntype c) |ty!*types/replicaset.filterController|)
+                               (not (= (|types/replicaset.controller.parent| (|F!types/replicaset.filterController!controller| c)) vnil)))
+                          :pattern ((|F!types/replicaset.filterController!controller| c)))))
+(declare-fun |F!types/replicaset.controller!parent| (V) V)
+; object invariant of the typed controllers (they are only built by newController / newFilterController,
+; whose precondition is a non-nil parent; the field is immutable)
+(assert (forall ((c V)) (! (=> (or (= (dyntype c) |ty!*types/replicaset.controller|) (= (dyntype c) |ty!*types/replicaset.filterController|))
+                               (not (= (|F!types/replicaset.controller!parent| c) vnil))) :pattern ((|F!types/replicaset.controller!parent| c)))))
 (define-fun isT ((o V)) Bool (and (not (= o vnil)) (= (dyntype o) |ty!*apps/v1.ReplicaSet|)))
 (declare-fun tevt-type (V) Str)
 (declare-fun tevt-res (V) V)
@@ -239,6 +248,23 @@ package replicaset
   at call(Refilter) assert [refilters-the-untyped-subscription-with-the-given-filter] (and (= $recv {s.filterParent}) (= $0 {f}))
 @*/
 
+/*@ func types/replicaset.NewMonitor
+  props C20 C16
+  theory replicasettyped
+  allow panic
+  note NewMonitor panics for a Publisher that is not one of this package's controllers (documented in the code)
+  requires (and (not (= {publisher} vnil)) (not (= {handler} vnil)))
+  at call(OnInitialize) assert [initialize-adapter] (= (closureOf $0) "types/replicaset.NewMonitor$1")
+  at call(OnCreate) assert [create-adapter-calls-oncreate] (= (closureOf $0) "types/replicaset.NewMonitor$2")
+  at call(OnUpdate) assert [update-adapter-calls-onupdate] (= (closureOf $0) "types/replicaset.NewMonitor$3")
+  at call(OnDelete) assert [delete-adapter-calls-ondelete] (= (closureOf $0) "types/replicaset.NewMonitor$4")
+  ensures (=> (= result1 vnil) (not (= result0 vnil)))
+@*/
+/*@ func types/replicaset.BuildHandler
+  props C20
+  fresh result
+  ensures (not (= result vnil))
+@*/
 /*@ func types/replicaset.NewMonitor$1
   props C20 C16
   theory replicasettyped
